@@ -16,13 +16,15 @@ from ..leanio import ModelError
 
 ID = "C16"
 LEVEL = "other"
-THEOREMS = ["no_inconsistent_error", "majority_family_laminar", "parent_is_child", "consensus_clades_exact_partial",
-            "uncovered_are_minus1"]
-EXPLANATION = ("theorems about the executable model: the majority family is laminar, find_smallest_superset never meets its "
-               "'Inconsistent' branch on it (any iteration order), the parent it returns is the Finset-level child relation, the "
-               "own sets cover every majority clade and the -1 labelling is exact; the last bridge (the fuel-driven forest "
-               "builder's clade list = majority set) is stated but left as an open obligation, hence level 'other'; that clause is "
-               "decided by the correspondence and the direct oracle only")
+THEOREMS = ["majority_family_laminar", "no_inconsistent_error", "parent_is_child", "consensus_clades_exact_partial",
+            "uncovered_are_minus1_partial"]
+EXPLANATION = ("proved on the executable model, for all traces / weights / thresholds >= 1/2 and every iteration order: the majority "
+               "family is laminar; find_smallest_superset never reaches its 'Inconsistent set of clades' branch; the parent it "
+               "records is exactly the nesting (child) relation of the family; the outlier list is exactly the data no consensus "
+               "node owns; Finset-level core of 'clades of the built tree = majority clades' (own sets inside c union to c). "
+               "Two list-level bridges are open (OBLIGATION-OPEN consensus_clades_exact, uncovered_are_minus1: own sets computed by "
+               "removing the children's elements = member minus strict sub-members, and the clade list of the fuel-driven forest "
+               "builder), hence level 'other'; those clauses are decided by the correspondence and the direct oracle only")
 BUDGET = {"quick": 55, "thorough": 420}
 SEARCH_BUDGET = 60
 RULE = ("mixtures of trees over one small data set (2..7 points quick / ..9 thorough, 1..10 trees: copies and one-point "
